@@ -48,7 +48,7 @@
       ([C13_no_data]); the property text does not speak about data.
     Proofs: SliceFacts.v (closure loop), SliceFacts2.v (rebuild loop). *)
 
-From Sodg Require Import SliceFacts2 SpecDec History.
+From Sodg Require Import SliceFacts2 SliceWeak SpecDec History.
 
 (** ** the definitions the statements use, unfolded *)
 
@@ -377,3 +377,97 @@ Example C13_finding_bound :
   /\ (within_limitsb 1 16 sinit (two_chains 15) = true
       /\ is_ok (op_slice 1 (fun l => l) (built 1 16 (two_chains 15)) 0) = true).
 Proof. split; [exact slice_chain_17 | exact slice_chain_16]. Qed.
+
+(** ** the source need not satisfy the invariant
+
+    The property text limits the sliced part ("everything reachable from v is
+    present and numbers at most 14 vertices"), not the source.  [rebuild] reads
+    the source through its edge lists and its capacity alone, so [Inv n g] can
+    be replaced by what [Inv] says about edge lists ([src_edges_ok]: labels of
+    a vertex pairwise distinct, at most [n] of them).  This covers states the
+    real code reaches beyond the group limit, e.g. a pair bound while all 14
+    group slots are taken (its vertices keep tag 1 although they have edges,
+    and [Inv] fails: [C13_ex_beyond_limits]).  Proofs: SliceWeak.v. *)
+
+Theorem C13_def_src_edges_ok :
+  forall n g, src_edges_ok n g <-> (forall v, NoDup (map fst (edg g v)) /\ length (edg g v) <= n).
+Proof. exact (fun n g => conj (fun H => H) (fun H => H)). Qed.
+
+Check C13_def_src_edges_ok :
+  forall n g, src_edges_ok n g <-> (forall v, NoDup (map fst (edg g v)) /\ length (edg g v) <= n).
+Print Assumptions C13_def_src_edges_ok.
+
+Theorem C13_inv_src_edges_ok :
+  forall n g, Inv n g -> src_edges_ok n g.
+Proof. exact inv_src_edges_ok. Qed.
+
+Check C13_inv_src_edges_ok :
+  forall n g, Inv n g -> src_edges_ok n g.
+Print Assumptions C13_inv_src_edges_ok.
+
+Theorem C13_slice_some_any_source :
+  forall n order p g v,
+  src_edges_ok n g -> (forall l, Permutation (order l) l) -> pclosed p g v ->
+  (forall rs, NoDup rs -> (forall u, In u rs -> reach p g v u) -> length rs <= 14) ->
+  (forall u a, reach p g v u -> ~ In (a, u) (edg g u)) ->
+  exists ng,
+    op_slice_some n order g v p = Ok ng
+    /\ Inv n ng /\ cap_of ng = cap_of g
+    /\ (forall w, tag ng w <> 0 <-> reach p g v w)
+    /\ (exists kept : nat -> bool,
+          (forall w, kept w = true <-> reach p g v w)
+          /\ forall w, edg ng w =
+                       if kept w then filter (fun e : label * nat => kept (snd e)) (edg g w) else [])
+    /\ (forall w, prs ng w = PEmpty).
+Proof. exact slice_some_correct_weak. Qed.
+
+Check C13_slice_some_any_source :
+  forall n order p g v,
+  src_edges_ok n g -> (forall l, Permutation (order l) l) -> pclosed p g v ->
+  (forall rs, NoDup rs -> (forall u, In u rs -> reach p g v u) -> length rs <= 14) ->
+  (forall u a, reach p g v u -> ~ In (a, u) (edg g u)) ->
+  exists ng,
+    op_slice_some n order g v p = Ok ng
+    /\ Inv n ng /\ cap_of ng = cap_of g
+    /\ (forall w, tag ng w <> 0 <-> reach p g v w)
+    /\ (exists kept : nat -> bool,
+          (forall w, kept w = true <-> reach p g v w)
+          /\ forall w, edg ng w =
+                       if kept w then filter (fun e : label * nat => kept (snd e)) (edg g w) else [])
+    /\ (forall w, prs ng w = PEmpty).
+Print Assumptions C13_slice_some_any_source.
+
+Theorem C13_edges_any_source :
+  forall n order p g v ng,
+  src_edges_ok n g -> (forall l, Permutation (order l) l) -> pclosed p g v ->
+  (forall rs, NoDup rs -> (forall u, In u rs -> reach p g v u) -> length rs <= 14) ->
+  (forall u a, reach p g v u -> ~ In (a, u) (edg g u)) ->
+  op_slice_some n order g v p = Ok ng ->
+  forall w a t,
+    In (a, t) (edg ng w) <-> reach p g v w /\ In (a, t) (edg g w) /\ reach p g v t.
+Proof. exact slice_some_edges_weak. Qed.
+
+Check C13_edges_any_source :
+  forall n order p g v ng,
+  src_edges_ok n g -> (forall l, Permutation (order l) l) -> pclosed p g v ->
+  (forall rs, NoDup rs -> (forall u, In u rs -> reach p g v u) -> length rs <= 14) ->
+  (forall u a, reach p g v u -> ~ In (a, u) (edg g u)) ->
+  op_slice_some n order g v p = Ok ng ->
+  forall w a t,
+    In (a, t) (edg ng w) <-> reach p g v w /\ In (a, t) (edg g w) /\ reach p g v t.
+Print Assumptions C13_edges_any_source.
+
+Example C13_ex_beyond_limits :
+  ~ Inv 16 ex_full
+  /\ src_edges_ok 16 ex_full
+  /\ (forall l : list nat, Permutation ((fun x => x) l) l)
+  /\ pclosed ptrue ex_full 40
+  /\ (forall rs, NoDup rs -> (forall u, In u rs -> reach ptrue ex_full 40 u) -> length rs <= 14)
+  /\ (forall u a, reach ptrue ex_full 40 u -> ~ In (a, u) (edg ex_full u))
+  /\ exists ng, op_slice 16 (fun x => x) ex_full 40 = Ok ng
+       /\ Inv 16 ng
+       /\ op_keys ng = [40; 41; 42]
+       /\ edg ng 40 = [(Alpha 1, 41)] /\ edg ng 41 = [(Alpha 2, 42)] /\ edg ng 42 = []
+       /\ tag ng 40 = 2 /\ tag ng 41 = 2 /\ tag ng 42 = 2
+       /\ ng = built 16 48 [OAdd 40; OAdd 41; OBind 40 41 (Alpha 1); OAdd 42; OBind 41 42 (Alpha 2)].
+Proof. exact slice_weak_example. Qed.
